@@ -66,7 +66,7 @@ def run(ctx):
             continue
         for i, a in enumerate(r["value"]):
             tasks.append((lang, i, a))
-    T = 200.0 if ctx.quick() else 900.0
+    T = 200.0 if ctx.quick() else 600.0
     results = {}
     with cf.ThreadPoolExecutor(max_workers=ctx.nproc) as ex:
         futs = {ex.submit(xh.call, "c15.py", "fixpoint", {"lang": lang, "automaton": i}, {"cond_timeout": T, "path_timeout": 30.0}, T * 12): (lang, i, a) for lang, i, a in tasks}
